@@ -18,10 +18,13 @@
    lazy cell reading the SAME list object through a list iterator (position, exhausted
    flag); deep_copy of a lazy list is the View cell of Model/LazyList.v (reused as is).
    Non-mutating operations: every observation of C13 on a lazy cell or on a copy cell,
-   reads of eager lists, further duplications.  Mutating operations (the in-place
-   primitives found in the source): `lhs[rhs] = other` on an eager list (assign_iterable,
-   element Ȧ), `made.append(x)` (gen_from_fn, element Ḟ), LazyList.__setitem__
-   (`self.generated[position] = value`). *)
+   reads of eager lists, further duplications.  Mutating operations - the in-place
+   primitives Python offers on these objects: `l[i] = v` on an eager list, `l.append(x)`,
+   LazyList.__setitem__ (`self.generated[position] = value`).  Which code uses them on an
+   object another reference can read is the business of part 1 and of the oracle: since
+   /repo 04249bb the elements Ȧ ¨M Ḟ work on copies; the templates ⅛ and ¼ append to / pop
+   from ctx.global_array in place, which is why ¾ must push a materialised copy of it
+   (ctx_pushes_ok below, on facts the translator reads off the templates). *)
 From Coq Require Import List NArith ZArith Bool Arith.
 From Vy Require Import Model.Base Model.LazyList.
 Import ListNotations.
@@ -35,6 +38,15 @@ Record mnode := { mn_fn : str; mn_pos : N; mn_direct : bool; mn_calls : list N }
    for the context (ctx.global_array / ctx.register / ctx.inputs ... in place) *)
 Record mtempl := { mt_key : str; mt_fn : str; mt_direct : bool; mt_calls : list N;
                    mt_ctx_direct : bool; mt_ctx_calls : list N }.
+
+(* a push of a context attribute as a whole: which template, which attribute, and whether the
+   pushed value is made eagerly at push time (list(...) / tuple(...) / sorted(...)) *)
+Record cpush := { cp_key : str; cp_attr : str; cp_materialised : bool }.
+
+(* every attribute whose object is changed in place by some template or function must be
+   pushed materialised: a bare push shares the object, deep_copy alone is a lazy view of it *)
+Definition ctx_pushes_ok (inplace : list str) (ps : list cpush) : bool :=
+  forallb (fun p => negb (mem_str (cp_attr p) inplace) || cp_materialised p) ps.
 
 (* how a template pushes (the copy-on-duplicate mechanism): pushes of a bare name, pushes
    wrapped in deep_copy *)
@@ -133,8 +145,7 @@ Definition c10_suspect_elements : list str :=
   ; u [100]          (* d   multiply(lhs, 2) (given a function)                         G *)
   ; u [114]          (* r   orderless_range -> multiply (given a function)              G *)
   ; u [289]          (* ġ   vy_gcd -> wrapify -> pop                                    F *)
-  ; u [550]          (* Ȧ   assign_iterable: lhs[rhs] = other                           G *)
-  ; u [7710]         (* Ḟ   gen_from_fn: made = lhs; made.append                        G *)
+  ; u [550]          (* Ȧ   assign_iterable: lhs[rhs] = other on lhs[:] / deep_copy(lhs) F *)
   ; u [178]          (* ²   square: nested helper `temp += " "` on a string             F *)
   ; u [8372]         (* ₴   vy_print                                                    F *)
   ; u [8230]         (* …   vy_print                                                    F *)
@@ -143,14 +154,12 @@ Definition c10_suspect_elements : list str :=
   ; u [8223]         (* ‟   wrapify(stack, n)                                           F *)
   ; u [8710; 177]    (* ∆±  copy_sign -> multiply                                       F *)
   ; u [8710; 76]     (* ∆L  natural_log -> wrapify                                      F *)
-  ; u [222; 68]      (* ÞD  all_diagonals: appends to its own fresh rows                F *)
   ; u [222; 7744]    (* ÞṀ  matrix_multiply -> dot_product -> multiply                  F *)
   ; u [222; 8226]    (* Þ•  dot_product -> multiply (given a function)                  G *)
-  ; u [222; 7690]    (* ÞḊ  matrix_determinant -> pad_to_square (rows are copies)       F *)
   ; u [222; 8453]    (* Þ℅  shuffle: random.shuffle(deep_copy(lhs)), the copy's cache   F *)
   ; u [168; 44]      (* ¨,  vy_print                                                    F *)
   ; u [168; 8230]    (* ¨…  vy_print                                                    F *)
-  ; u [168; 77]      (* ¨M  apply_at -> assign_iterable                                 G *)
+  ; u [168; 77]      (* ¨M  apply_at -> assign_iterable                                 F *)
   ; u [168; 7815]    (* ¨ẇ  wrapify(stack, n)                                           F *)
   ].
 Definition c10_suspect_modifiers : list str :=
@@ -288,8 +297,8 @@ Inductive eop :=
 | ECObs (k : nat) (w : kind)          (* the same observations on a copy of an eager list *)
 | ERead (o : nat)                     (* any read of an eager list *)
 | EDup (o : nat)                      (* `:` on an eager list: stack.append(deep_copy(top)) *)
-| EAssign (o i : nat) (v : Z)         (* assign_iterable:  lhs[rhs] = other *)
-| EAppend (o : nat) (v : Z)           (* gen_from_fn:      made = lhs; made.append(next_item) *)
+| EAssign (o i : nat) (v : Z)         (* l[i] = v on an eager list object *)
+| EAppend (o : nat) (v : Z)           (* l.append(v): what the ⅛ template does to ctx.global_array *)
 | ESetLazy (c i : nat) (v : Z).       (* LazyList.__setitem__ *)
 
 Definition mutating (e : eop) : bool :=
